@@ -16,15 +16,20 @@ for d in sorted(glob.glob(os.path.join(ROOT, "seeded", "*"))):
             parts = l.split(" :: ")
             first = (parts[0].replace("violation: ", "") + ": " + (parts[1] if len(parts) > 1 else ""))[:110]
             break
-    rows.append((os.path.basename(d), m["property"], title[:90].replace("|", "/"), "yes" if m.get("check_detects") else "**no**", first.replace("|", "/")))
+    caught = "yes" if m.get("check_detects") else "**no**"
+    if m.get("missed_before_strengthening"):
+        caught += " (missed at first)"
+    rows.append((os.path.basename(d), m["property"], title[:90].replace("|", "/"), caught, first.replace("|", "/")))
 table = ["| change | property | what it is (from its README) | caught by `./check <ID> --tier quick` | first violation class reported |", "|---|---|---|---|---|"]
 for r in rows:
     table.append("| `seeded/%s` | %s | %s | %s | %s |" % r)
-caught = sum(1 for r in rows if r[3] == "yes")
+caught = sum(1 for r in rows if r[3].startswith("yes"))
+missed_first = sum(1 for r in rows if "missed at first" in r[3])
 table.append("")
-table.append(f"{caught} of {len(rows)} recorded changes are caught by the quick tier of the property they break.")
+table.append(f"{caught} of {len(rows)} recorded changes are caught by the quick tier of the property they break; {missed_first} of them were missed when first tried and are caught since the check was strengthened (column 4, `strengthening` in their meta.json).")
 p = os.path.join(ROOT, "DESIGN.md")
 s = open(p).read()
-s = re.sub(r"<!-- SEEDED-TABLE-BEGIN -->.*<!-- SEEDED-TABLE-END -->", "<!-- SEEDED-TABLE-BEGIN -->\n" + "\n".join(table) + "\n<!-- SEEDED-TABLE-END -->", s, flags=re.S)
+block = "<!-- SEEDED-TABLE-BEGIN -->\n" + "\n".join(table) + "\n<!-- SEEDED-TABLE-END -->"
+s = re.sub(r"<!-- SEEDED-TABLE-BEGIN -->.*<!-- SEEDED-TABLE-END -->", lambda _m: block, s, flags=re.S)
 open(p, "w").write(s)
 print(f"{caught}/{len(rows)}")
